@@ -238,3 +238,14 @@ Proof.
   intros Hw H x Hx. exists (rev w x). pose proof (rev_range w x Hw).
   split; [auto|split; [assumption|]]. rewrite H by assumption. f_equal. apply rev_involutive; auto.
 Qed.
+
+Lemma all_reversals_involutive :
+  involutive_on 32 swar_u32 /\ involutive_on 64 swar_u64 /\
+  involutive_on 32 lookup_u32 /\ involutive_on 64 lookup_u64 /\
+  involutive_on 32 muldiv_u32 /\ involutive_on 64 muldiv_u64 /\
+  involutive_on 32 muldiv32_u32 /\ involutive_on 64 muldiv32_u64.
+Proof.
+  repeat split; apply is_rev_involutive; try lia;
+    auto using swar_u32_is_rev, swar_u64_is_rev, lookup_u32_is_rev, lookup_u64_is_rev,
+               muldiv_u32_is_rev, muldiv_u64_is_rev, muldiv32_u32_is_rev, muldiv32_u64_is_rev.
+Qed.
